@@ -979,8 +979,10 @@ func (r *Reader) parseBodyElementsInOrder(data []byte) error {
 
 	decoder := xml.NewDecoder(strings.NewReader(string(data)))
 	var inBody bool
-	var depth int // element nesting depth below <w:body>
+	var depth int    // element nesting depth below <w:body>
+	var sdtDepth int // number of enclosing block-level content controls
 	var paraIndex, tableIndex int
+	var sdtParaIndex, sdtTableIndex int
 
 	for {
 		token, err := decoder.Token()
@@ -1002,12 +1004,38 @@ func (r *Reader) parseBodyElementsInOrder(data []byte) error {
 
 			// Only direct children of the body are body elements; paragraphs and
 			// tables nested in table cells, text boxes etc. belong to their container
+			// A block-level content control is transparent: its content is body content
+			if depth == 0 && (t.Name.Local == "sdt" || t.Name.Local == "sdtContent") {
+				sdtDepth++
+				continue
+			}
 			depth++
 			if depth != 1 {
 				continue
 			}
 
 			// Track elements in order
+			if sdtDepth > 0 {
+				switch t.Name.Local {
+				case "p":
+					if sdtDepth == 2 && sdtParaIndex < len(r.document.Body.SdtParagraphs) {
+						r.document.Body.Elements = append(r.document.Body.Elements, bodyElement{
+							Type:      "paragraph",
+							Paragraph: &r.document.Body.SdtParagraphs[sdtParaIndex],
+						})
+						sdtParaIndex++
+					}
+				case "tbl":
+					if sdtDepth == 2 && sdtTableIndex < len(r.document.Body.SdtTables) {
+						r.document.Body.Elements = append(r.document.Body.Elements, bodyElement{
+							Type:  "table",
+							Table: &r.document.Body.SdtTables[sdtTableIndex],
+						})
+						sdtTableIndex++
+					}
+				}
+				continue
+			}
 			switch t.Name.Local {
 			case "p":
 				if paraIndex < len(r.document.Body.Paragraphs) {
@@ -1030,7 +1058,9 @@ func (r *Reader) parseBodyElementsInOrder(data []byte) error {
 			if !inBody {
 				continue
 			}
-			if depth == 0 && t.Name.Local == "body" {
+			if depth == 0 && (t.Name.Local == "sdt" || t.Name.Local == "sdtContent") && sdtDepth > 0 {
+				sdtDepth--
+			} else if depth == 0 && t.Name.Local == "body" {
 				inBody = false
 			} else {
 				depth--
